@@ -66,16 +66,15 @@ def scenarios(ctx, deep=False):
             # it only reads through the inherited session and leaves
             childs = [['query'], ['query', 'query']]
         elif d == 0:
-            childs = [['begin', 'query', 'end_commit'],
-                      ['begin', 'write', 'end_commit', 'begin', 'query', 'end_commit'],
-                      ['begin', 'query', 'end_rollback'],
-                      ['begin', 'write', 'query', 'end_commit']]
+            childs = [['begin', 'write', 'end_commit', 'begin', 'query', 'end_commit'],
+                      ['begin', 'query', 'end_rollback']]
+            if deep or ctx.thorough: childs += [['begin', 'query', 'end_commit'], ['begin', 'write', 'query', 'end_commit']]
             if deep or ctx.thorough: childs += [['begin', 'begin', 'query', 'end_commit', 'query', 'end_commit'], ['begin', 'end_commit', 'begin', 'write', 'end_rollback']]
         else:
             childs = [['query'],
-                      ['query'] + closing + ['begin', 'query', 'end_commit'],
                       ['write'] + closing + ['begin', 'write', 'end_commit'],
                       closing + ['begin', 'query', 'end_commit']]
+            if deep or ctx.thorough: childs.append(['query'] + closing + ['begin', 'query', 'end_commit'])
             if deep or ctx.thorough: childs += [['query', 'write'] + closing, ['begin', 'query', 'end_commit'] + closing]
         if d == 0: afters = [['begin', 'query', 'end_commit']]
         else: afters = [['query'] + closing + ['begin', 'query', 'end_commit']]
@@ -87,8 +86,8 @@ def scenarios(ctx, deep=False):
         # the child's first connect attempt fails (file briefly missing, server refusing): it tries again, in the same and in a new session
         if d == 0 or name in ('session-begun-no-statement', 'session-begun-connection-pooled'):
             opening = ['begin'] if d == 0 else []
-            fchilds = [opening + ['query_fail', 'query', 'end_commit', 'begin', 'query', 'end_commit'],
-                       opening + ['query_fail', 'end_commit', 'begin', 'write', 'end_commit']]
+            fchilds = [opening + ['query_fail', 'query', 'end_commit', 'begin', 'query', 'end_commit']]
+            if deep or ctx.thorough or name == 'pooled-after-read': fchilds.append(opening + ['query_fail', 'end_commit', 'begin', 'write', 'end_commit'])
             if deep or ctx.thorough: fchilds.append(opening + ['query_fail', 'query_fail', 'query', 'query_fail', 'end_commit'])
             for ch in fchilds:
                 out.append({'point': name, 'before': before, 'child': ch, 'after': afters[0]})
@@ -108,7 +107,9 @@ def with_backends(ctx, scs, deep=False):
         if depth_of(before) == 0:
             out.append({'backend': 'sqlite', 'point': name, 'before': before, 'child': ['disconnect', 'begin', 'query', 'end_commit'], 'after': ['begin', 'query', 'end_commit']})
     pool_scs = []
+    POOL_POINTS = ('never-connected', 'pooled-after-read', 'disconnected', 'session-begun-connection-pooled', 'live-session-read')
     for name, before in BEFORES:
+        if name not in POOL_POINTS and not (deep or ctx.thorough): continue
         d = depth_of(before)
         closing = ['end_commit'] * d
         after = (['query'] + closing if d else []) + ['begin', 'query', 'end_commit']
